@@ -121,6 +121,9 @@ type Personality struct {
 	AANoKey bool
 	// CAMNoKey: PACE-CAM chip authentication data is computed from a random static key.
 	CAMNoKey bool
+	// CAMPadding: malformed ISO 9797-1 method 2 padding of the chip authentication data before encryption (the
+	// data itself is genuine): "marker-junk" = 80 followed by non-zero octets, "marker-tail" = 80 00.. 01.
+	CAMPadding string
 }
 
 // PersonalityByName returns the named personality: "genuine", "ca-no-key",
